@@ -97,6 +97,7 @@ def _stream_rules(ctx: CheckContext, p: Program, r: Resolver):
     ctx.guard(derived.check_derived, ctx, r, st, invariant_props=["CP", "t_min", "t_max", "t_min_star", "t_max_star", "htr"],
                           base_props=["t_supply", "t_target", "heat_flow", "dt_cont", "htc"])
     ctx.guard(derived.check_stale_order, ctx, r, st)
+    ctx.guard(derived.check_setter_siblings, ctx, r, st, ["t_supply", "t_target", "heat_flow", "dt_cont", "htc"])
     groups = ctx.guard(derived.check_shift_direction, ctx, r, st)
     if groups is not None:
         ctx.guard(derived.check_helper_guards, ctx, r, st, groups)
@@ -130,6 +131,9 @@ def run(ctx: CheckContext):
                 "        # stream.name = key\n", "        if key in self._streams and self._streams[key] == stream:\n            return\n", "WHO-ALWAYS")
     run_control(ctx, "C19/size-heuristic-instead-of-flag", analyse, p.root, sc,
                 "        self._streams[key] = stream\n        self._needs_sort = True\n", "        self._streams[key] = stream\n", "MEMO-M1")
+    run_control(ctx, "C19/duty-setter-through-partial-helper", analyse, p.root, stp,
+                "    def heat_flow(self, value: float):\n        self._heat_flow = value\n        self._update_attributes()\n",
+                "    def heat_flow(self, value: float):\n        self.set_heat_flow(value)\n", "DERIVED-SIB")
     run_control(ctx, "C19/concat-drops-other", analyse, p.root, sc,
                 "        for stream in other._streams.values():\n            combined.add(stream)\n", "", "WHO-CONCAT")
     run_control(ctx, "C19/overwrite-from-outside", analyse, p.root, "OpenPinch/classes/zone.py",
